@@ -546,6 +546,15 @@ fn main() {
         guard(&run, &format!("dep/{}@Field64", spec.name()), || build::<Field64, _>(spec, Deployed { run: &run, lines: if q { 2 } else { 8 } }).unwrap());
         guard(&run, &format!("dep/{}@Field128", spec.name()), || build::<Field128, _>(spec, Deployed { run: &run, lines: if q { 2 } else { 8 } }).unwrap());
     }
+    // widest admissible digit vectors: bounds whose bit length equals the field's (63/64 digits over Field64,
+    // 127/128 over Field128)
+    let p64 = Field64::p();
+    for spec in [Spec::Sum { max: 1 << 63 }, Spec::Sum { max: (1 << 63) - 1 }, Spec::Sum { max: p64 - 1 }, Spec::SumVec { max: 1 << 63, len: 2, chunk: 5 }, Spec::L1 { max: 1 << 63, len: 2, chunk: 16 }, Spec::Multihot { len: 4, max_weight: 1 << 63, chunk: 9 }] {
+        guard(&run, &format!("dep/{}@Field64", spec.name()), || build::<Field64, _>(&spec, Deployed { run: &run, lines: 2 }).unwrap());
+    }
+    for spec in [Spec::Sum { max: 1 << 127 }, Spec::Sum { max: (1 << 127) - 1 }, Spec::SumVec { max: 1 << 127, len: 1, chunk: 9 }, Spec::L1 { max: 1 << 127, len: 1, chunk: 16 }] {
+        guard(&run, &format!("dep/{}@Field128", spec.name()), || build::<Field128, _>(&spec, Deployed { run: &run, lines: 2 }).unwrap());
+    }
     eprintln!("[{:.1}s] deployed", run.elapsed());
     run.exhaustive(true);
     run.note("exhaustive_scope", json!("small-field instances: inputs/joint/gadget-point exhaustive as listed in samples; deployed fields: lattice + lines (not exhaustive)"));
